@@ -151,6 +151,14 @@ def gen_value(rng, regime):
         if r < 24:
             return 10 ** (-9 + 6 * rng.unit())
         return 10 ** (-3 + 6 * rng.unit())
+    if regime == 'grid':
+        # values whose products and short sums are EXACT in binary64 and land on / next to the 1e-6 threshold, so that the
+        # guards `Z > eps`, `Zij > eps`, `old > eps` and the truncation `|x| < eps` are exercised at equality
+        if r < 35:
+            return rng.choice([EPS, EPS, ulp_step(EPS, 1), ulp_step(EPS, -1), 2 * EPS, 0.5 * EPS, 4 * EPS])
+        if r < 55:
+            return 0.0
+        return rng.choice([1.0, 1.0, 0.5, 2.0, 0.25])
     if regime == 'unit':
         if r < 5:
             return 0.0
@@ -163,7 +171,7 @@ def gen_value(rng, regime):
 
 
 def gen_state(rng, N, K, L, directed, assort, regime=None, ul=None, vl=None):
-    regime = regime or rng.choice(['wide', 'wide', 'unit', 'tiny'])
+    regime = regime or rng.choice(['wide', 'wide', 'unit', 'tiny', 'grid'])
     u = [[gen_value(rng, regime) for _ in range(K)] for _ in range(N)]
     v = [[gen_value(rng, regime) for _ in range(K)] for _ in range(N)]
     if rng.chance(0.15):
@@ -227,10 +235,10 @@ def upd_case(cid, directed, assort, K, L, wtype, recs, u, v, w):
     return ' '.join(toks)
 
 
-def gen_upd(rng, cid, directed=None, assort=None):
+def gen_upd(rng, cid, directed=None, assort=None, wtype=None):
     directed = rng.chance(0.5) if directed is None else directed
     assort = rng.chance(0.5) if assort is None else assort
-    wtype = rng.choice(['i', 'i', 'r'])
+    wtype = wtype or rng.choice(['i', 'i', 'r'])
     e = gen_edges(rng, 's', wtype, nmax=rng.choice([3, 5, 7]), recmax=rng.choice([4, 9, 14]))
     K = rng.rint(2, 4)
     N, ul, vl = model_lists(e['recs'], directed, wtype)
@@ -272,7 +280,7 @@ def gen_e2e(rng, cid, variant=None, types=None, maxit_max=25, r_max=3, prior='ze
     r = r or rng.rint(1, r_max)
     maxit = maxit or rng.choice([1, 2, rng.rint(3, maxit_max), rng.rint(3, maxit_max)])
     nconv = nconv or rng.rint(1, 3)
-    seed = seed if seed is not None else rng.choice([0, 1, 42, rng.below(1 << 31)])
+    seed = seed if seed is not None else rng.choice([0, 1, 42, rng.below(1 << 31), rng.below(1 << 31), (1 << 32) + rng.below(1000), -1 - rng.below(1000), (1 << 31) + rng.below(1 << 30)])
     aff_n = K * L if assort else K * K * L
     if from_init:
         aff = [rng.choice([0.0, rng.unit(), rng.unit() * 3, 1e-7]) for _ in range(aff_n)]
